@@ -101,6 +101,7 @@ type dohScript struct {
 	lastmod string
 	delayMs int // "auto" only
 	releaseAt time.Time // "autolm" only
+	next      *dohScript // what any further request of the same exchange meets (a client that retries on its own)
 }
 
 type dohReq struct {
@@ -155,6 +156,9 @@ func (s *dohServer) handler(w http.ResponseWriter, r *http.Request) {
 	}
 	s.mu.Lock()
 	sc := s.cur
+	if sc != nil && sc.next != nil && len(s.reqs) > 0 {
+		sc = sc.next
+	}
 	s.reqs = append(s.reqs, dohReq{r.URL.Path, r.Header.Clone(), body})
 	s.mu.Unlock()
 	if sc == nil {
@@ -600,6 +604,12 @@ func resolverHist(r *rng, n int, certDir string) error {
 		cacheOn := !r.coin(10)
 		maxAge := []uint32{0, 0, 5, 20, 3600}[r.intn(5)]
 		maxTTL := []uint32{0, 0, 4, 30}[r.intn(4)]
+		// every 12th history: one resolver sees several hundred distinct profiles (a large conditional-profile
+		// configuration), all asking the same few questions; no clock moves, the transport may still switch
+		manyProf := h%12 == 7
+		if manyProf {
+			cacheOn = true
+		}
 		w, err := newRWorld(certDir, cacheOn, maxAge, maxTTL)
 		if err != nil {
 			return err
@@ -608,18 +618,8 @@ func resolverHist(r *rng, n int, certDir string) error {
 		t0 := time.Now()
 		var vnow time.Duration // virtual time since t0 (sum of advances)
 		nops := r.rng(4, 24)
-		// every 12th history: one resolver sees several hundred distinct profiles (a large conditional-profile
-		// configuration), all asking the same few questions; no clock moves, the transport may still switch
-		manyProf := h%12 == 7
 		nprof := 4
 		if manyProf {
-			cacheOn = true
-			if w.cache == nil {
-				w.close()
-				if w, err = newRWorld(certDir, true, maxAge, maxTTL); err != nil {
-					return err
-				}
-			}
 			nprof = r.rng(258, 300)
 			nops = nprof + r.rng(20, 40)
 		}
@@ -990,7 +990,8 @@ func resolverFault(r *rng, n int, certDir string) error {
 	defer cancel()
 	go func() { _ = p.ListenAndServe(ctx) }()
 	time.Sleep(150 * time.Millisecond)
-	dohKinds := []string{"ok", "status", "empty", "big", "hang_hdr", "hang_mid", "reset_hdr", "reset_mid", "trickle", "trickle_slow", "refuse", "junk"}
+	dohKinds := []string{"ok", "status", "empty", "big", "hang_hdr", "hang_mid", "reset_hdr", "reset_mid", "trickle", "trickle_slow", "refuse", "junk",
+		"reset_then_hang", "resetmid_then_trickle", "status_then_hang"}
 	dnsKinds := []string{"ok", "none", "mismatch_ok", "short_ok", "mismatch_only", "late", "junk", "unreach", "stray_late", "stray_trickle"}
 	for i := 0; i < n; i++ {
 		// every fault of both menus in turn (quick runs cover each several times), queries stay random
@@ -1038,6 +1039,16 @@ func resolverFault(r *rng, n int, certDir string) error {
 					outcome = "big"
 					upTok = hxfill(body, sz-len(body), 7)
 				case "hang_hdr", "hang_mid", "reset_hdr", "reset_mid", "trickle_slow":
+					outcome = "err"
+				case "reset_then_hang", "resetmid_then_trickle", "status_then_hang":
+					// a sequence of two faults on the same query: a quick failure, and should the client come back
+					// for that query on its own, a slow one
+					first, second := map[string][2]string{"reset_then_hang": {"reset_hdr", "hang_hdr"},
+						"resetmid_then_trickle": {"reset_mid", "trickle_slow"}, "status_then_hang": {"status", "hang_mid"}}[k][0],
+						map[string][2]string{"reset_then_hang": {"reset_hdr", "hang_hdr"},
+							"resetmid_then_trickle": {"reset_mid", "trickle_slow"}, "status_then_hang": {"status", "hang_mid"}}[k][1]
+					sc.kind, sc.status = first, 503
+					sc.next = &dohScript{kind: second, body: body}
 					outcome = "err"
 				case "refuse":
 					sc.kind = "ok"
